@@ -2,7 +2,8 @@
    violation.  Statements only; proofs are in Proofs/SchemaValProofs.v. *)
 From PyGql Require Import Schema.SchemaFull Schema.SchemaValidateModel Spec.SchemaValidSpec
   Proofs.SchemaValProofs Proofs.SchemaVerdictProofs Spec.SchemaReportSpec Proofs.SchemaReportProofs
-  Proofs.SchemaStructuralProofs Proofs.SchemaSoundProofs.
+  Proofs.SchemaStructuralProofs Proofs.SchemaSoundProofs
+  Proofs.SchemaMemberOrderProofs.
 From Coq Require Import Permutation.
 
 (* The covariance check used for interface implementations decides exactly
@@ -43,13 +44,13 @@ Qed.
 Print Assumptions C13_memo.
 
 (* The multiset of reported violations does not depend on the order in which
-   the types were supplied. *)
+   the types (and the directives) were supplied. *)
 Theorem C13_perm : forall s s',
   NoDup (map t_name (s_types s)) -> Permutation (s_types s) (s_types s') ->
-  s_dirs s = s_dirs s' -> s_query s = s_query s' -> s_mutation s = s_mutation s' ->
+  Permutation (s_dirs s) (s_dirs s') -> s_query s = s_query s' -> s_mutation s = s_mutation s' ->
   s_subscription s = s_subscription s' -> s_default_resolver s = s_default_resolver s' ->
   Permutation (validate_model s) (validate_model s').
-Proof. exact validate_perm. Qed.
+Proof. exact validate_perm_full. Qed.
 Print Assumptions C13_perm.
 
 (* The validator accepts exactly the schemas that satisfy every rule of the
@@ -124,6 +125,18 @@ Theorem C13_errors_sound : forall s e,
   \/ (In e (validate_directives (s_types s) (s_dirs s)) /\ ~ directives_ok s).
 Proof. exact errors_sound. Qed.
 Print Assumptions C13_errors_sound.
+
+(* The verdict is a function of the schema's structure: it does not depend on
+   the order in which the members of a type are declared (fields, input fields,
+   enum values, union members, implemented interfaces) -- on top of C13_perm for
+   the order of types and directives.  The reported LIST does depend on the
+   field order (which of two same-named fields is "the duplicate" and gets
+   masked): C13_example_field_order. *)
+Theorem C13_verdict_member_order : forall s s',
+  member_order_rel s s' -> sigs_wf s -> types_wf s -> sigs_wf s' -> types_wf s' ->
+  (validate_model s = [] <-> validate_model s' = []).
+Proof. exact verdict_member_order. Qed.
+Print Assumptions C13_verdict_member_order.
 
 (* non-vacuity *)
 Local Open Scope string_scope.
